@@ -36,7 +36,80 @@ def destructor_pairs(P):
                         a = a.strip()
                         if a.k == "ArraySubscriptExpr" and a.kids[0].strip().k == "MemberExpr":
                             pairs.setdefault((N, a.kids[0].strip().member), []).append(f)
+            # a destructor that walks V[0..N) (takes an element's address, reads a member of it) relies on V as well
+            if is_destructor(f):
+                lv = n.kids[0]
+                lvd = None
+                if lv is not None:
+                    for m in lv.walk():
+                        if m.k == "VarDecl":
+                            lvd = m.get("decl")
+                for m in n.kids[4].walk():
+                    if m.k == "ArraySubscriptExpr" and m.kids[0].strip().k == "MemberExpr" and \
+                            m.kids[1].strip().k == "DeclRefExpr" and m.kids[1].strip().refdecl == lvd:
+                        V = m.kids[0].strip()
+                        # no NULL test of V around the loop
+                        guarded = any(a_.k == "IfStmt" and V.member in [x for x in a_.kids if x is not None][0].text() and
+                                      "vn_magic" not in [x for x in a_.kids if x is not None][0].text()
+                                      for a_ in n.ancestors())
+                        if not guarded and f not in pairs.get((N, V.member), []):
+                            pairs.setdefault((N, V.member), []).append(f)
     return pairs
+
+
+def is_destructor(f):
+    if f.body is None or not f.params:
+        return False
+    p0 = f.params[0]["decl"]
+    return any(c.args() and c.args()[0].strip().k == "DeclRefExpr" and c.args()[0].strip().refdecl == p0 for c in f.calls("free"))
+
+
+def deref_members(f):
+    """pointer members M of the destructor's parameter that it dereferences on every call without testing M:
+    `T *x = P->M;` followed by x->..., or P->M->... directly, outside any `if` that mentions M"""
+    out = {}
+    if not is_destructor(f):
+        return out
+    p0 = f.params[0]["decl"]
+    alias = {}
+    for v in f.vardecls():
+        if v.kids:
+            r = v.kids[0].strip()
+            if r.k == "MemberExpr" and r.kids[0].strip().k == "DeclRefExpr" and r.kids[0].strip().refdecl == p0 and "*" in (r.ctype or ""):
+                alias[v.get("decl")] = r.member
+    for n in f.walk():
+        if n.k != "MemberExpr" or not n.get("arrow"):
+            continue
+        b = n.kids[0].strip()
+        M = None
+        if b.k == "DeclRefExpr" and b.refdecl in alias:
+            M = alias[b.refdecl]
+        elif b.k == "MemberExpr" and b.kids[0].strip().k == "DeclRefExpr" and b.kids[0].strip().refdecl == p0 and "*" in (b.ctype or ""):
+            M = b.member
+        if M is None:
+            continue
+        tested = False
+        for a_ in n.ancestors():
+            if a_.k == "IfStmt":
+                ct = [x for x in a_.kids if x is not None][0]
+                names = {m.member for m in ct.walk() if m.k == "MemberExpr"} | \
+                        {alias.get(m.refdecl) for m in ct.walk() if m.k == "DeclRefExpr"}
+                if M in names:
+                    tested = True
+        if not tested:
+            out.setdefault(M, n)
+    # circular list sentinel: `while (P->H.l_forw != &P->H)` assumes the head was linked to itself
+    for n in f.walk():
+        if n.k == "BinaryOperator" and n.op == "!=":
+            a, b = n.kids[0].strip(), n.kids[1].strip()
+            for x, y in ((a, b), (b, a)):
+                if x.k == "MemberExpr" and y.k == "UnaryOperator" and y.op == "&" and y.kids[0].strip().k == "MemberExpr":
+                    head = y.kids[0].strip()
+                    inner = x.kids[0].strip()
+                    if inner.k == "MemberExpr" and inner.member == head.member and \
+                            head.kids[0].strip().k == "DeclRefExpr" and head.kids[0].strip().refdecl == p0:
+                        out.setdefault("%s.%s" % (head.member, x.member), n)
+    return out
 
 
 def dominates(cfg, a, b):
@@ -90,13 +163,21 @@ def run(P, tier="quick"):
                     if t.k == "IfStmt":
                         c = [x for x in t.kids if x is not None][0]
                         cs = c.strip()
+                        def _is_v(x):
+                            x = x.strip()
+                            while x.k == "BinaryOperator" and x.op == "=":      # (P->V = alloc()) == NULL
+                                x = x.kids[0].strip()
+                            return x.k == "MemberExpr" and x.member == V
                         isnull = (cs.k == "BinaryOperator" and cs.op == "==" and
-                                  any(x.strip().k == "MemberExpr" and x.strip().member == V for x in cs.kids) and
+                                  any(_is_v(x) for x in cs.kids) and
                                   any(is_null(x) for x in cs.kids)) or \
                                  (cs.k == "UnaryOperator" and cs.op == "!" and cs.kids[0].strip().k == "MemberExpr" and
                                   cs.kids[0].strip().member == V)
-                        if isnull and \
-                                dominates(f.cfg, doms[0], c) and dominates(f.cfg, c, ns) and f.cfg.pos_of(c) != f.cfg.pos_of(ns):
+                        # the test must lie between the allocation and the store of N, and the store must be on its
+                        # "allocation succeeded" side: not inside the branch taken when V is NULL
+                        kids_t = [x for x in t.kids if x is not None]
+                        if isnull and dominates(f.cfg, doms[0], c) and dominates(f.cfg, c, ns) and \
+                                f.cfg.pos_of(c) != f.cfg.pos_of(ns) and not kids_t[1].is_ancestor_of(ns):
                             checked = True
                 if not checked:
                     bad = ("order", ns, "%s is set at line %d before the allocation of %s (line %d) has been checked" %
@@ -116,6 +197,101 @@ def run(P, tier="quick"):
                 R.ok(key, PROPS)
             else:
                 R.violated(Finding("R20", PROPS, f.file, f.name, "%s:%s/%s" % (bad[0], N, V), bad[2], bad[1].line))
+    # DEREF: members the destructor dereferences untested must be set on every path on which a constructor hands the
+    # half-built object to it
+    from ..flow import Engine, Tracker, TooManyStates
+
+    class SetTracker(Tracker):
+        def __init__(self, obj, members, dname):
+            self.obj, self.members, self.dname = obj, members, dname
+            self.bad = {}
+            self.ncalls = 0
+
+        def initial(self, fn):
+            return frozenset()
+
+        def step(self, st, n, ctx):
+            if n.k == "BinaryOperator" and n.op == "=" and n.kids[0].strip().k == "DeclRefExpr" and \
+                    n.kids[0].strip().refdecl == self.obj:
+                r = n.kids[1].strip()
+                while r.k == "BinaryOperator" and r.op == "=":
+                    r = r.kids[1].strip()
+                if r.k == "CallExpr" and r.callee in ALLOCS:
+                    return [frozenset({"<alloc>"})]
+                return [frozenset()]          # NULL / handed over: the destructor call is a no-op or not ours
+            if n.k == "BinaryOperator" and n.op == "=":
+                t = n
+                while t.k == "BinaryOperator" and t.op == "=":
+                    l = t.kids[0].strip()
+                    if l.k == "MemberExpr" and l.member in self.members and l.kids[0].strip().k == "DeclRefExpr" and \
+                            l.kids[0].strip().refdecl == self.obj and not (t.kids[1].strip().cv == 0):
+                        st = st | {l.member}
+                    elif l.k == "MemberExpr" and l.kids[0].strip().k == "MemberExpr" and \
+                            "%s.%s" % (l.kids[0].strip().member, l.member) in self.members:
+                        b_ = l.kids[0].strip().kids[0].strip()
+                        if b_.k == "DeclRefExpr" and b_.refdecl == self.obj:
+                            st = st | {"%s.%s" % (l.kids[0].strip().member, l.member)}
+                    t = t.kids[1].strip()
+                return [st]
+            if n.k == "CallExpr" and n.callee == self.dname and n.args() and n.args()[0].strip().k == "DeclRefExpr" and \
+                    n.args()[0].strip().refdecl == self.obj:
+                self.ncalls += 1
+                if "<alloc>" in st:
+                    for m in self.members:
+                        if m not in st:
+                            self.bad.setdefault(m, (n, ctx.trace()))
+            return [st]
+
+        def branch(self, st, cond, truth, ctx):
+            # the destructor is a no-op for a NULL object: `obj == NULL` edges do not count
+            c = cond.strip()
+            if c.k == "BinaryOperator" and c.op in ("==", "!="):
+                a, b = c.kids[0].strip(), c.kids[1].strip()
+                while a.k == "BinaryOperator" and a.op == "=":
+                    a = a.kids[0].strip()
+                if a.k == "DeclRefExpr" and a.refdecl == self.obj and (b.cv == 0 or b.k == "GNUNullExpr"):
+                    if (c.op == "==") == truth:
+                        return None
+            return st
+    n_deref = 0
+    for D in P.lib_functions():
+        need = deref_members(D)
+        if not need:
+            continue
+        for C in P.lib_functions():
+            if C.cfg is None or C.key() == D.key() or not C.calls(D.name):
+                continue
+            # the object must be one this function allocates (a local assigned from malloc/calloc)
+            objs = set()
+            for n in C.walk():
+                if n.k == "BinaryOperator" and n.op == "=" and n.kids[0].strip().k == "DeclRefExpr" and n.kids[0].strip().refkind == "local":
+                    r = n.kids[1].strip()
+                    while r.k == "BinaryOperator" and r.op == "=":
+                        r = r.kids[1].strip()
+                    if r.k == "CallExpr" and r.callee in ALLOCS:
+                        objs.add(n.kids[0].strip().refdecl)
+            for c in C.calls(D.name):
+                a0 = c.args()[0].strip() if c.args() else None
+                if a0 is None or a0.k != "DeclRefExpr" or a0.refdecl not in objs:
+                    continue
+                tr = SetTracker(a0.refdecl, set(need), D.name)
+                try:
+                    Engine(C, tr, 200000).run()
+                except TooManyStates:
+                    R.unclassified("R20|%s|%s|deref:%s" % (C.file, C.name, D.name), "too many states", PROPS)
+                    break
+                n_deref += 1
+                key = "R20|%s|%s|deref:%s" % (C.file, C.name, D.name)
+                if not tr.bad:
+                    R.ok(key, PROPS)
+                for m, (n, trace) in sorted(tr.bad.items()):
+                    R.violated(Finding("R20", PROPS, C.file, C.name, "deref:%s.%s" % (D.name, m),
+                                       "%s() is given the half-built object at line %d on a path on which %s has not been set yet, "
+                                       "and %s() dereferences %s without a test (line %d): a failure before that store (an "
+                                       "allocation failure) crashes in the clean-up" %
+                                       (D.name, n.line, m, D.name, m, need[m].line), n.line, trace))
+                break
+    R.counts["deref_contracts"] = n_deref
     R.counts["constructors"] = n_ctor
     if n_ctor < 1:
         raise AnalysisBroken("R20: no constructor storing both a count and its vector found (_vnacal_calibration_alloc expected)")
